@@ -401,6 +401,9 @@ class Analyzer:
                 continue
             if r.aliases & names and (summ or call.callee in r.rel | ({"free"} if r.kind == "heap" else set())):
                 if r.status == "released":
+                    if idempotent_release(self.P, call.callee):
+                        out.append(r)       # the first call nulled what it freed: this one frees nothing
+                        continue
                     self.findings.append(("double-free", r, call, path))
                     out.append(r)
                     continue
@@ -649,6 +652,54 @@ def fresh_out_summaries(P):
                 summ.setdefault(f.name, {})[names.index(pn)] = only_on_success
     P.__dict__.setdefault("_memo", {})['_fo_cache'] = summ
     return summ
+
+
+def idempotent_release(P, name):
+    """True when calling `name(p)` a second time releases nothing: every deallocation in its body is
+    `free(p->m)` of a member of its parameter, and a store `p->m = NULL` post-dominates each of them
+    (the destroy-and-reset idiom). Anything else (frees the parameter itself, calls another releaser,
+    no reset on some path) is not idempotent."""
+    memo = P.__dict__.setdefault("_memo", {}).setdefault("_idem", {})
+    if name in memo:
+        return memo[name]
+    memo[name] = False
+    defs = [f for f in P.by_name.get(name, []) if f.cfg is not None]
+    if len(defs) != 1:
+        return False
+    f = defs[0]
+    params = [p["n"] for p in f.params]
+    rel = set(RELEASE)
+    for v in list(CTOR.values()) + list(INIT.values()):
+        rel |= v
+    summ = frees_param_summaries(P)
+    frees = []
+    for c in f.calls():
+        if c.callee == "free":
+            frees.append(c)
+        elif c.callee in rel or c.callee in summ:
+            return False
+    if not frees:
+        return False
+    w = f.cfg.where()
+    pdom = f.cfg.postdominators()
+    for c in frees:
+        a = c.args()[0].strip_casts()
+        if a.k != "MemberExpr" or lvalue_text(a.c[0]) not in params:
+            return False
+        t = lvalue_text(a)
+        ok = False
+        for q in f.body.walk():
+            if q.k == "BinaryOperator" and q.op == "=" and lvalue_text(q.c[0].strip()) == t and \
+                    (q.c[1].cv == 0 or (q.c[1].strip_casts() is not None and q.c[1].strip_casts().cv == 0)) \
+                    and q.i in w and c.i in w:
+                bq, iq = w[q.i]
+                bc, ic = w[c.i]
+                if (bq == bc and iq > ic) or (bq != bc and bq in pdom.get(bc, ())):
+                    ok = True
+        if not ok:
+            return False
+    memo[name] = True
+    return True
 
 
 def frees_param_summaries(P):
